@@ -843,10 +843,12 @@ Definition sizes_canonical (h : header) : bool :=
       end
   | None => true
   end.
-(* SubstreamsInfo.write writes nothing when there is no folder *)
+(* SubstreamsInfo.write writes nothing when there is no folder; and the graph carries a SubstreamsInfo object at all
+   (every graph that went through _real_get_contents does: Assign.install_sub) -- without one the folders' CRCs,
+   which the assignment then hands to the members, would be lost with the folder CRC record that is never written *)
 Definition nums_nonempty (h : header) : bool :=
   match h_streams h with
-  | Some st => match si_sub st with Some s => negb (length (s_nums s) =? 0)%nat | None => true end
+  | Some st => match si_sub st with Some s => negb (length (s_nums s) =? 0)%nat | None => false end
   | None => true
   end.
 
@@ -937,10 +939,7 @@ Proof.
       apply HeaderProofs.zlist_eqb_eq in Hcan. subst l. reflexivity. }
     rewrite Hsz. destruct (match s_sizes x with Some sz => Ok sz | None => dflt_sizes fs (s_nums x) end) as [sizes|]; [|reflexivity].
     cbn [bind]. apply assign_loop_norm. exact HL.
-  - cbn [option_map]. unfold impl_plans. cbn [h_files h_streams si_folders si_pack si_sub].
-    rewrite has_data_norm. destruct (existsb _ files); [reflexivity|].
-    rewrite AssignProofs.zlen_map.
-    exact (assign_loop_norm files false 0 [] [] [] [] 0 0 0 [] (zlen fs) eq_refl).
+  - discriminate Hne.
 Qed.
 
 (* ---- the packed-stream list of a folder with one packed stream is not stored: the Folder object
@@ -982,13 +981,25 @@ Lemma dflt_sizes_canon : forall fs ns, dflt_sizes (map canon_folder fs) ns = dfl
 Proof.
   induction fs as [|f fs IH]; intros [|n ns]; try reflexivity. simpl. rewrite IH, canon_folder_unpacksizes. reflexivity.
 Qed.
+Lemma canon_folder_crc f :
+  f_digestdefined (canon_folder f) = f_digestdefined f /\ f_crc (canon_folder f) = f_crc f.
+Proof. unfold canon_folder. destruct (_ =? 1); split; reflexivity. Qed.
+Lemma default_digests_canon : forall fs ns, default_digests ns (map canon_folder fs) = default_digests ns fs.
+Proof.
+  induction fs as [|f fs IH]; intros [|n ns]; try reflexivity.
+  cbn [map default_digests]. rewrite IH. destruct (canon_folder_crc f) as [Hd Hc]. rewrite Hd, Hc. reflexivity.
+Qed.
+Lemma default_sub_canon fs : default_sub (map canon_folder fs) = default_sub fs.
+Proof. unfold default_sub. rewrite map_length, default_digests_canon. reflexivity. Qed.
 Lemma impl_plans_canon h : impl_plans (canon_header h) = impl_plans h.
 Proof.
   destruct h as [[[pk fo sb]|] fl ef]; [|reflexivity]. unfold canon_header. cbn [h_streams h_files h_emptyfiles option_map si_pack si_folders si_sub].
   destruct fl as [files|]; [|reflexivity]. destruct fo as [fs|]; [|reflexivity]. destruct pk as [p|]; [|reflexivity].
   cbn [option_map]. destruct sb as [x|].
   - rewrite !impl_plans_streams, AssignProofs.zlen_map, dflt_sizes_canon. reflexivity.
-  - unfold impl_plans. cbn [h_files h_streams si_folders si_pack si_sub]. rewrite AssignProofs.zlen_map. reflexivity.
+  - unfold impl_plans. cbn [h_files h_streams si_folders si_pack si_sub].
+    rewrite AssignProofs.zlen_map, default_sub_canon.
+    change last_sizes with dflt_sizes. rewrite dflt_sizes_canon. reflexivity.
 Qed.
 Lemma sizes_canonical_canon h : sizes_canonical (canon_header h) = sizes_canonical h.
 Proof.
@@ -1102,6 +1113,14 @@ Proof.
     rewrite He, (IH Hr0). reflexivity.
 Qed.
 
+(* a base already carries its SubstreamsInfo object: opening installs nothing *)
+Lemma install_sub_base_ok h : base_ok h = true -> install_sub h = h.
+Proof.
+  destruct h as [[[pk fo sb]|] fl ef]; [|intros _; destruct fl; reflexivity].
+  unfold base_ok, install_sub. cbn [h_streams h_files si_pack si_folders si_sub].
+  destruct pk as [p|], fo as [fs|], sb as [x|], fl as [files|]; intros H; try discriminate H; reflexivity.
+Qed.
+
 Theorem reopen_checked_keeps lim pw posf dflt h1 h2 :
   base_ok h1 = true -> reopen_checked lim pw posf dflt h1 = Ok h2 ->
   base_ok h2 = true /\ impl_plans h2 = impl_plans h1.
@@ -1113,6 +1132,7 @@ Proof.
   unfold reopen_via_bytes in H. bind_inv H bs Hw. bind_inv H hp Hparse. injection H as <-.
   destruct (reserialise_keeps_plans lim _ _ h1 bs Hwf Hcan Hne Hw) as [H1 H2].
   rewrite H1 in Hparse. injection Hparse as <-.
+  unfold open_graph. rewrite install_sub_base_ok by (apply base_ok_norm_canon; assumption).
   rewrite open_names_named by (rewrite all_named_norm_canon; exact Hnamed).
   split; [apply base_ok_norm_canon; assumption|exact H2].
 Qed.
@@ -1316,7 +1336,61 @@ Proof.
   vm_compute. reflexivity.
 Qed.
 
+(* ================================================================== *)
+(* A base that was read without SubStreamsInfo                          *)
+(* ================================================================== *)
+(* the parser builds a graph without the object; _real_get_contents installs SubstreamsInfo.default(folders)
+   (Assign.install_sub) and the session works on that graph: when it is a base, every earlier plan -- as read
+   from the graph the parser built -- survives the session *)
+Theorem append_preserves_installed_base pw h nf ms psz pcrc h' ps :
+  base_ok (install_sub h) = true -> impl_plans h = Ok ps -> forallb member_ok ms = true ->
+  append_session pw (install_sub h) nf ms psz pcrc = Ok h' ->
+  impl_plans h' = Ok (ps ++ new_plans (nfiles h) (nfolders h) 0 ms).
+Proof.
+  intros Hb Hp Hok Hs. rewrite <- impl_plans_install_sub in Hp.
+  pose proof (append_preserves_plans pw (install_sub h) nf ms psz pcrc h' ps Hb Hp Hok Hs) as H.
+  replace (nfiles (install_sub h)) with (nfiles h) in H; [replace (nfolders (install_sub h)) with (nfolders h) in H; [exact H|]|].
+  - destruct h as [[[pk fo sb]|] [fl|] ef]; try reflexivity. destruct fo as [fs|], pk as [p|], sb as [s|]; reflexivity.
+  - destruct h as [[[pk fo sb]|] [fl|] ef]; try reflexivity. destruct fo as [fs|], pk as [p|], sb as [s|]; reflexivity.
+Qed.
+
+(* two folders (the first with a folder-level CRC), a directory between the data entries, no SubStreamsInfo *)
+Definition x_nosub : header :=
+  mkHeader
+    (Some (mkStreams (Some (mkPack 0 2 [40; 7] [] []))
+                     (Some [mkFolder [x_lzma2] [] [0] [300] true (Some 11); mkFolder [x_copy] [] [0] [7] false None])
+                     None))
+    (Some [x_file 97 1000; x_dir 100; x_file 98 2000])
+    [false].
+Example append_no_substreams_example :
+  exists bs0 h ps h' bs h2,
+    (* its bytes (the header writer never stores folder CRCs), opened for append: the object is installed *)
+    write_header false 79 x_nosub = Ok bs0 /\
+    open_for_append 1000 [99] bs0 = Ok h /\
+    option_map si_sub (h_streams h) = Some (Some (mkSub [1; 1] None [false; false] [0; 0])) /\
+    install_sub x_nosub =
+      mkHeader (Some (mkStreams (Some (mkPack 0 2 [40; 7] [] []))
+                                (Some [mkFolder [x_lzma2] [] [0] [300] true (Some 11); mkFolder [x_copy] [] [0] [7] false None])
+                                (Some (mkSub [1; 1] None [true; false] [11; 0]))))
+               (h_files x_nosub) (h_emptyfiles x_nosub) /\
+    base_ok (install_sub x_nosub) = true /\ forallb member_ok x_members = true /\
+    impl_plans x_nosub = Ok ps /\
+    map (fun p => (ip_id p, ip_kind p, ip_folder p, ip_offset p, ip_size p, ip_crc p)) ps =
+      [(0, 0, 0, 0, 300, Some 11); (1, 2, -1, 0, 0, None); (2, 0, 1, 0, 7, None)] /\
+    append_session false (install_sub x_nosub) x_newfolder x_members 12 999 = Ok h' /\
+    impl_plans h' = Ok (ps ++ new_plans 3 2 0 x_members) /\
+    reopen_guard 1000 false h' = true /\
+    write_header false 79 h' = Ok bs /\ parse_header 1000 bs = Ok h2 /\
+    impl_plans h2 = Ok (ps ++ new_plans 3 2 0 x_members).
+Proof.
+  do 6 eexists. split; [vm_compute; reflexivity|]. split; [vm_compute; reflexivity|]. split; [reflexivity|].
+  split; [reflexivity|]. split; [reflexivity|]. split; [reflexivity|]. split; [vm_compute; reflexivity|].
+  split; [reflexivity|]. split; [vm_compute; reflexivity|]. split; [vm_compute; reflexivity|].
+  split; [vm_compute; reflexivity|]. split; [vm_compute; reflexivity|]. split; vm_compute; reflexivity.
+Qed.
+
 Print Assumptions append_preserves_plans.
+Print Assumptions append_preserves_installed_base.
 Print Assumptions append_preserves_spec_base.
 Print Assumptions append_position_after_data.
 Print Assumptions append_sessions_preserve.
